@@ -83,6 +83,11 @@ def draw_case(rng, template=None):
         "kw_omit_none": None,
         "kw_by_alias": None,
     }
+    r = rng.random()
+    if r < 0.15:
+        case["config_style"] = "plain"
+    elif r < 0.3:
+        case["config_style"] = "plain-inherited"
     if case["omit_none_flag"] and rng.random() < 0.6:
         case["kw_omit_none"] = rng.random() < 0.5
     if case["by_alias_flag"] and rng.random() < 0.6:
@@ -140,7 +145,17 @@ def build(case, idx):
     cd = mkdialect(case["config_dialect"], "CfgDialect")
     if cd is not None:
         cfg["dialect"] = cd
-    ns["Config"] = type("Config", (BaseConfig,), cfg)
+    style = case.get("config_style", "base")
+    if style == "base":
+        ns["Config"] = type("Config", (BaseConfig,), cfg)
+    elif style == "plain":
+        # a plain `class Config:` (the README style), every option in its own namespace
+        ns["Config"] = type("Config", (), cfg)
+    else:
+        # a plain Config INHERITING its options from a plain parent (shared settings class)
+        keys = sorted(cfg)
+        parent = type("CommonConfig", (), {k: cfg[k] for k in keys[::2]})
+        ns["Config"] = type("Config", (parent,), {k: cfg[k] for k in keys[1::2]})
     ns["__annotations__"] = ann
     use_codec = case["default_dialect"] is not None
     cls = type(f"C08_{idx}", () if use_codec else (DataClassDictMixin,), ns)
